@@ -1015,7 +1015,10 @@ RunResult execute(Engine *e, const Plan &p) {
 			r.tasks[0].clk.c[0]++;
 			for (int t = 1; t <= p.ntasks; t++) {
 				Task &x = r.tasks[t];
-				if (!task_stacks[t]) task_stacks[t] = (char *)mmap(nullptr, STACK_SZ, PROT_READ | PROT_WRITE, MAP_PRIVATE | MAP_ANONYMOUS, -1, 0);
+				if (!task_stacks[t]) { // with an inaccessible page below it: running off the stack (unbounded recursion in code under test) is a fault, not silent corruption
+					char *m = (char *)mmap(nullptr, STACK_SZ + 4096, PROT_READ | PROT_WRITE, MAP_PRIVATE | MAP_ANONYMOUS, -1, 0);
+					mprotect(m, 4096, PROT_NONE); task_stacks[t] = m + 4096;
+				}
 				x.stack = task_stacks[t];
 				getcontext(&x.ctx);
 				x.ctx.uc_stack.ss_sp = x.stack; x.ctx.uc_stack.ss_size = STACK_SZ; x.ctx.uc_link = nullptr;
